@@ -187,12 +187,12 @@ func stripTimes(o map[string]any) map[string]any {
 }
 
 type recResult struct {
-	res     reconcile.Result
-	err     error
-	crashed bool
+	res      reconcile.Result
+	err      error
+	crashed  bool
 	panicked error
-	calls   int
-	changed int // effective writes by the package manager
+	calls    int
+	changed  int // effective writes by the package manager
 }
 
 // reconcile runs one reconcile of the package.
